@@ -18,9 +18,9 @@ GVR2 = "0x" + "22" * 32
 NV = 3  # abstract values 0..NV-1 appear in files; probes go one above
 
 
-def iconsts(V, me, mm="max", dk="merge"):
+def iconsts(V, me, mm="max", dk="merge", wer=True):
     c = dict(seqfamily.BASE)
-    c.update(MaxI=3, V=set(V), MaxEntries=me, MergeMode=mm, DupKeys=dk)
+    c.update(MaxI=3, V=set(V), MaxEntries=me, MergeMode=mm, DupKeys=dk, WriteErrorReported=wer)
     return c
 
 
@@ -53,6 +53,14 @@ def model_phase(prop, tier, wd, info):
         if not killed:
             raise Inconclusive("design mutant MergeMode=%s DupKeys=%s survives" % (mm, dk))
         info["mutants"].append(dict(mutant="MergeMode=%s,DupKeys=%s" % (mm, dk), killed_by=killed))
+    # a record write that fails during the import (the file names a key the store refuses) is swallowed and success reported
+    rm = tlc("Interchange", make_cfg(iconsts([0, 1, 2], 2, wer=False), invariants=["ImportCovers"]), wd, name="mut_WriteErrorSwallowed", timeout=600)
+    require_killed(rm, "WriteErrorReported=FALSE", ["ImportCovers"])
+    info["mutants"].append(dict(mutant="WriteErrorReported=FALSE", killed_by=[rm.violated]))
+    c = case_from_trace(rm.trace)
+    c["origin"] = "mutant WriteErrorReported=FALSE violating ImportCovers"
+    c["after"] = None
+    cases.append(c)
     return cases
 
 
@@ -174,6 +182,14 @@ def one_case(job):
                                            signed_blocks=[dict(slot=num(0))]))
     for j in range(2, nk):     # the file mentions every key of the big database with old (low) data
         data.append(dict(pubkey="0x" + pubs[j], signed_attestations=[dict(source_epoch=num(0), target_epoch=num(0))], signed_blocks=[dict(slot=num(0))]))
+    if case["meta"] == "unstorable":
+        # keys that the store refuses to write (their bytes begin with the storage engine's reserved prefix), placed between the
+        # others; and a dozen further validators, so that the place where the write loop stops varies
+        bad = "!badger!".encode().hex()
+        for j in range(12):
+            data.insert((idx + 3 * j) % (len(data) + 1), dict(pubkey="0x%s%080x" % ("a1" * 8, j + 1), signed_attestations=[dict(source_epoch=num(0), target_epoch=num(1))], signed_blocks=[dict(slot=num(1))]))
+        for j in range(3):
+            data.insert((idx + 5 * j) % (len(data) + 1), dict(pubkey="0x%s%080x" % (bad, 7 * j + idx), signed_attestations=[dict(source_epoch=num(0), target_epoch=num(1))], signed_blocks=[dict(slot=num(0))]))
     meta = dict(interchange_format_version="5", genesis_validators_root=GVR)
     bad_detail = None
     if case["meta"] == "badversion":
@@ -236,11 +252,12 @@ def project_case(r, lines):
     lines.append(dict(ev="Floor", k="k0", s=b["s"], t=b["t"], slot=b["ps"]))
     lines.append(dict(ev="Floor", k="k1", s=1, t=2, slot=1))
     success = r["rc"] == 0
-    if success and case["meta"] in ("ok", "badnumber"):
+    if success and case["meta"] in ("ok", "badnumber", "unstorable"):
         for e in case["file"]:
             lines.append(dict(ev="Floor", k="k0", s=e["att"]["s"], t=e["att"]["t"], slot=e["slot"]))
     lines.append(dict(ev="Rc", rc=r["rc"], must_reject=case["meta"] in ("badversion", "badroot")))
-    lines.append(dict(ev="DbPair", before=db_of(before), after=db_of(after), must="ge" if success else "eq"))
+    # (an import that stops at a key the store refuses has written the keys before it: never lowered, but not unchanged)
+    lines.append(dict(ev="DbPair", before=db_of(before), after=db_of(after), must="ge" if success or case["meta"] == "unstorable" else "eq"))
     for ev in r["post"]:
         e = ev["ev"]
         if e == "Invoke":
